@@ -1,8 +1,12 @@
 import ImathVerif.Lemmas.FixedArrayWrite
+import ImathVerif.Lemmas.FixedArrayComp
+import ImathVerif.Lemmas.FixedArrayInv
+import ImathVerif.Lemmas.FixedArrayInplace
 import ImathVerif.Lemmas.StringTableLemmas
 import ImathVerif.Lemmas.FixedArray2DLemmas
+import ImathVerif.Lemmas.FixedVArrayLemmas
 import ImathVerif.Model.FixedArrayWitness
-import ImathVerif.Model.BufferProtocol
+import ImathVerif.Lemmas.BufferProtocolLemmas
 /-!
 # C19 — PyImath arrays index like Python sequences and honour read-only protection
 
@@ -369,6 +373,130 @@ theorem writable_monotone (cfg : Cfg) (s : State) (op : Op) (i : Nat) (a : View)
   case iaddScalar v x => split <;> first | exact same | exact wh _
   case iaddVector v d => split <;> first | exact same | exact wh _
 
+/-- the object a creating statement derives its result from -/
+def Op.source : Op → Option Nat
+  | .getslice v _ | .getmask v _ | .copy v | .convert v | .ifelseScalar v _ _ | .ifelseVector v _ _ => some v
+  | _ => none
+
+/-- **A view derived from a read-only object cannot be used to modify it** (the property's wording, without the
+    `Protected` hypothesis on the OTHER objects): a masked reference or handle copy of a read-only object is read-only;
+    a slice / converted / `ifelse` result is a copy in a fresh buffer (so writable, but on other data). -/
+theorem derived_view_readonly (cfg : Cfg) (s : State) (op : Op) (v : Nat) (a : View) (hsrc : Op.source op = some v)
+    (ha : s.env[v]? = some a) (hw : a.writable = false) (hb : a.buf < s.heap.length) (id : Nat)
+    (hr : (step cfg s op).2 = .ok (.newView id)) :
+    ∃ f, (step cfg s op).1.env[id]? = some f ∧ (f.buf = a.buf → f.writable = false) := by
+  have hview : s.view v = .ok a := by simp [State.view, ha]
+  have wn : ∀ r : Except Err (Heap × View), (∀ x, r = .ok x → Fresh s.heap x) →
+      (s.withNew r).2 = .ok (.newView id) →
+      ∃ f, (s.withNew r).1.env[id]? = some f ∧ (f.buf = a.buf → f.writable = false) := by
+    intro r hf hres
+    cases r with
+    | error e => simp [State.withNew] at hres
+    | ok x =>
+      obtain ⟨h', f⟩ := x
+      obtain ⟨vals, _, h2⟩ := hf _ rfl
+      simp only at h2
+      simp only [State.withNew, State.push, Except.ok.injEq, Out.newView.injEq] at hres
+      subst hres
+      exact ⟨f, by simp [State.withNew, State.push], fun hfb => by omega⟩
+  have ps : ∀ f : View, f.buf = a.buf → f.writable = a.writable →
+      (s.push s.heap f).2 = .ok (.newView id) →
+      ∃ f', (s.push s.heap f).1.env[id]? = some f' ∧ (f'.buf = a.buf → f'.writable = false) := by
+    intro f _ h2 hres
+    simp only [State.push, Except.ok.injEq, Out.newView.injEq] at hres
+    subst hres
+    exact ⟨f, by simp [State.push], fun _ => by rw [h2, hw]⟩
+  cases op with
+  | getslice v' idx =>
+    simp only [Op.source, Option.some.injEq] at hsrc; subst hsrc
+    simp only [step, hview] at hr ⊢
+    exact wn _ (fun x hx => getslice_fresh hx) hr
+  | getmask v' m =>
+    simp only [Op.source, Option.some.injEq] at hsrc; subst hsrc
+    simp only [step, hview] at hr ⊢
+    cases hm : s.view m with
+    | error e => simp [hm] at hr
+    | ok mk =>
+      simp only [hm] at hr ⊢
+      cases hg : getsliceMask s.heap a mk with
+      | error e => simp [hg] at hr
+      | ok f =>
+        simp only [hg] at hr ⊢
+        have hi := getsliceMask_inherits hg
+        exact ps f hi.1 hi.2.1 hr
+  | copy v' =>
+    simp only [Op.source, Option.some.injEq] at hsrc; subst hsrc
+    simp only [step, hview] at hr ⊢
+    exact ps a rfl rfl hr
+  | convert v' =>
+    simp only [Op.source, Option.some.injEq] at hsrc; subst hsrc
+    simp only [step, hview] at hr ⊢
+    exact wn _ (fun x hx => convert_fresh hx) hr
+  | ifelseScalar v' c x =>
+    simp only [Op.source, Option.some.injEq] at hsrc; subst hsrc
+    simp only [step, hview] at hr ⊢
+    cases hc : s.view c with
+    | error e => simp [hc] at hr
+    | ok ch =>
+      simp only [hc] at hr ⊢
+      exact wn _ (fun x hx => ifelseScalar_fresh hx) hr
+  | ifelseVector v' c o =>
+    simp only [Op.source, Option.some.injEq] at hsrc; subst hsrc
+    simp only [step, hview] at hr ⊢
+    cases hc : s.view c with
+    | error e => simp [hc] at hr
+    | ok ch =>
+      cases ho : s.view o with
+      | error e => simp [hc, ho] at hr
+      | ok ot =>
+        simp only [hc, ho] at hr ⊢
+        exact wn _ (fun x hx => ifelseVector_fresh hx) hr
+  | _ => simp [Op.source] at hsrc
+
+/-- the limitation, stated and kernel-checked: an alias taken BEFORE `makeReadOnly()` (here a handle copy) stays
+    writable — `_writable` is a per-object flag — so the data of a read-only OBJECT can still change through it.
+    `readonly_invariant` therefore protects a BUFFER all of whose views are read-only, and `derived_view_readonly`
+    covers every view derived AFTERWARDS. -/
+theorem readonly_is_per_object :
+    (exec Cfg.current State.empty [.alloc [1, 2], .copy 0, .makeReadOnly 0, .setScalar 1 (.int 0) 9]).heap[0]? = some [9, 2] ∧
+    ((exec Cfg.current State.empty [.alloc [1, 2], .copy 0, .makeReadOnly 0]).env[0]?).map (·.writable) = some false ∧
+    (run Cfg.current State.empty [.alloc [1, 2], .copy 0, .makeReadOnly 0, .setScalar 0 (.int 0) 9]).2.getLast?
+      = some (.error .readOnly) := by decide
+
+/-! ## The global invariant: no statement ever accesses memory outside a buffer
+
+`StateOK s`: every Python object is a well-formed DENSE array (`off = 0`, `stride = 1`) or a masked reference of one.
+Density is needed, not only well-formedness: the packed branch of `a[mask] = data` re-reads `mask` while it writes `a`,
+and a SHIFTED alias of `a` used as the mask could grow the number of selected elements under the loop — such views cannot
+be built by the 16 statements (slices are copies), which is what the invariant records. -/
+
+/-- **One statement, any statement (current code)**: the invariant is preserved and the result is not the model's
+    out-of-buffer outcome.  `OpOK` only says that an allocation request fits `Py_ssize_t`. -/
+theorem step_preserves_WF (s : State) (hs : StateOK s) (op : Op) (hop : OpOK op) :
+    StateOK (step Cfg.current s op).1 ∧ (step Cfg.current s op).2 ≠ .error .oob := step_inv s hs op hop
+
+/-- **No program, of any length, touches a cell outside a buffer**: starting from the empty interpreter state every
+    reachable state satisfies the invariant and no statement's outcome is `Err.oob` (clause 11). -/
+theorem no_oob_current (ops : List Op) (hops : ∀ op ∈ ops, OpOK op) :
+    StateOK (exec Cfg.current State.empty ops) ∧ ∀ r ∈ (run Cfg.current State.empty ops).2, r ≠ .error .oob :=
+  run_inv ops State.empty StateOK.empty hops
+
+/-- non-vacuity / discrimination: the witness programs satisfy `OpOK`, and the SAME statement is false for the code as
+    first examined (`convert_masked_oob_asWritten`: the converting constructor reached `Err.oob`) -/
+example : (∀ op ∈ witnessConvert, OpOK op) ∧
+    (run Cfg.asWritten State.empty witnessConvert).2.getLast? = some (.error .oob) ∧
+    (∀ r ∈ (run Cfg.current State.empty witnessConvert).2, r ≠ .error .oob) :=
+  ⟨by intro op hop; simp [witnessConvert] at hop; rcases hop with h | h | h | h | h <;> subst h <;> simp [OpOK] <;> decide,
+   by decide, (no_oob_current witnessConvert (by
+     intro op hop; simp [witnessConvert] at hop; rcases hop with h | h | h | h | h <;> subst h <;> simp [OpOK] <;> decide)).2⟩
+
+/-- `a.ifelse(choice, x)` with a scalar alternative: `[a[i] if choice[i] else x]` in a fresh array -/
+theorem ifelse_scalar_refines {h : Heap} {v choice : View} (w : v.WF (shape h)) (wc : choice.WF (shape h))
+    (hl1 : choice.length = v.length) (x : Int) :
+    ∃ h' f, ifelseScalar h v choice x = .ok (h', f) ∧
+      f.toList h' = PyList.ifelse (choice.toList h) (v.toList h) (List.replicate v.length x) ∧
+      f.WF (shape h') ∧ f.buf = h.length ∧ (∃ vals, h' = h ++ [vals]) := ifelseScalar_refines w wc hl1 x
+
 /-! ## Refinement to Python list semantics (statements; proofs in `Lemmas/FixedArrayWF.lean`, `FixedArrayWrite.lean`)
 
 `View.toList h v` is what Python sees: element `i` is `_ptr[(masked ? _indices[i] : i) * _stride]`.
@@ -497,6 +625,105 @@ theorem ifelse_refines {h : Heap} {v choice other : View} (w : v.WF (shape h)) (
       f.WF (shape h') ∧ f.buf = h.length ∧ (∃ vals, h' = h ++ [vals]) :=
   ifelseVector_refines w wc wo (Or.inl rfl) hl1 hl2
 
+/-- `a[mask] = b` with `len(b) == count(mask)` (the packed branch): the selected positions receive `b[0], b[1], …` -/
+theorem setitem_vector_mask_packed_refines {h : Heap} {v mask data : View} (w : v.WF (shape h))
+    (wm : mask.WF (shape h)) (wd : data.WF (shape h)) (hw : v.writable = true) (hun : v.indices = none)
+    (hnm : mask.buf ≠ v.buf) (hnd : data.buf ≠ v.buf) (hlen : mask.length = v.length)
+    (hdl : data.length ≠ v.length) (hcnt : data.length = (PyList.maskPositions (mask.toList h)).length) :
+    ∃ h', setitemVectorMask h v mask data = .ok h' ∧ shape h' = shape h ∧ Frame v.buf h h' ∧
+      v.toList h' = PyList.setMaskPacked (v.toList h) (mask.toList h) (data.toList h) :=
+  setitemVectorMask_packed_refines w wm wd hw hun hnm hnd hlen hdl hcnt
+
+/-- **`a += x`** through either accessor class (dense, strided or masked `a`; current code): exactly the elements of
+    `a` are increased by `x`, no other cell of the buffer changes -/
+theorem iadd_scalar_refines {h : Heap} {a : View} (w : a.WF (shape h)) (hw : a.writable = true) (x : Int) :
+    ∃ h', iaddScalar Cfg.current h a x = .ok h' ∧ shape h' = shape h ∧ Frame a.buf h h' ∧
+      a.toList h' = (a.toList h).map (· + x) ∧
+      (∀ p, (∀ j, j < a.length → a.cellPos j ≠ p) → cellAt h' a.buf p = cellAt h a.buf p) := iaddScalar_refines w hw x
+
+/-- **`a += b`**, `len(b) == len(a)` (`b` in another allocation, either array may be a masked reference):
+    `a[i] += b[i]` -/
+theorem iaddVector_refines {h : Heap} {a b : View} (w : a.WF (shape h)) (wb : b.WF (shape h)) (hw : a.writable = true)
+    (hne : b.buf ≠ a.buf) (hlen : b.length = a.length) (hk : ¬ (a.isMasked = true ∧ b.length = a.unmaskedLength)) :
+    ∃ h', iaddVector Cfg.current h a b = .ok h' ∧ shape h' = shape h ∧ Frame a.buf h h' ∧
+      a.toList h' = List.zipWith (· + ·) (a.toList h) (b.toList h) := FixedArray.iaddVector_refines w wb hw hne hlen hk
+
+/-- **`m += b`** for a masked reference `m` and `b` of the UNMASKED length: `m[i] += b[raw index of i]` -/
+theorem iaddVector_masked_refines {h : Heap} {a b : View} {idx : List Nat} (w : a.WF (shape h)) (wb : b.WF (shape h))
+    (hw : a.writable = true) (hne : b.buf ≠ a.buf) (hidx : a.indices = some idx) (hlen : b.length = a.unmaskedLength) :
+    ∃ h', iaddVector Cfg.current h a b = .ok h' ∧ shape h' = shape h ∧ Frame a.buf h h' ∧
+      a.toList h' = List.zipWith (· + ·) (a.toList h) (PyList.pick (b.toList h) idx) :=
+  FixedArray.iaddVector_masked_refines w wb hw hne hidx hlen
+
+/-- what `m[mask] = x` DOES on a masked reference, for every input (recorded finding: the mask is not looked at) -/
+theorem setitem_scalar_mask_on_masked_refines {h : Heap} {v mask : View} {idx : List Nat} (w : v.WF (shape h))
+    (hw : v.writable = true) (hidx : v.indices = some idx)
+    (hlen : mask.length = v.length ∨ mask.length = v.unmaskedLength) (x : Int) :
+    ∃ h', setitemScalarMask h v mask x false = .ok h' ∧ shape h' = shape h ∧ Frame v.buf h h' ∧
+      v.toList h' = PyList.setEach (v.toList h) (List.range v.length) x :=
+  setitemScalarMask_on_masked_refines w hw hidx hlen x
+
+/-- non-vacuity of the in-place theorems: the masked reference of the witness set-up (made writable) is well formed -/
+example : ∃ s : State, s = exec Cfg.current State.empty [.alloc [10, 11, 12], .alloc [1, 0, 1], .getmask 0 1] ∧
+    StateOK s ∧ (s.env[2]?).map (·.indices) = some (some [0, 2]) :=
+  ⟨_, rfl, (no_oob_current _ (by intro op hop; simp at hop; rcases hop with h | h | h <;> subst h <;> simp [OpOK] <;> decide)).1,
+   by decide⟩
+
+/-! ### the mask specification, characterised independently of its definition -/
+
+/-- `i` is selected iff it is a position of the mask holding a non-zero value -/
+theorem maskPositions_spec (m : List Int) (i : Nat) :
+    i ∈ PyList.maskPositions m ↔ i < m.length ∧ m[i]! ≠ 0 := by
+  simp [PyList.maskPositions]
+
+/-- the selected positions are listed once each, in increasing order -/
+theorem maskPositions_sorted (m : List Int) : (PyList.maskPositions m).Pairwise (· < ·) :=
+  List.Pairwise.filter _ List.pairwise_lt_range
+
+/-- `select` is Python's `[x for x, b in zip(l, mask) if b]` when the lengths agree -/
+theorem select_eq_zip_filter {α : Type} (l : List α) (m : List Int) (hl : l.length = m.length) :
+    PyList.select l m = (l.zip m).filterMap (fun p => if p.2 != 0 then some p.1 else none) := by
+  induction l generalizing m with
+  | nil =>
+    cases m with
+    | nil => rfl
+    | cons b t => simp at hl
+  | cons a t ih =>
+    cases m with
+    | nil => simp at hl
+    | cons b u =>
+      have hl' : t.length = u.length := by simpa using hl
+      have hshift : PyList.maskPositions (b :: u)
+          = (if b != 0 then [0] else []) ++ (PyList.maskPositions u).map (· + 1) := by
+        unfold PyList.maskPositions
+        rw [List.length_cons, List.range_succ_eq_map, List.filter_cons]
+        simp only [List.filter_map]
+        have : (List.filter ((fun i => (b :: u)[i]! != 0) ∘ Nat.succ) (List.range u.length))
+            = List.filter (fun i => u[i]! != 0) (List.range u.length) := by
+          apply List.filter_congr
+          intro i _
+          simp [getElem!_def]
+        rw [this]
+        by_cases hb : (b != 0) = true
+        · simp [hb, getElem!_def]
+        · simp [hb, getElem!_def]
+      have hpick : PyList.pick (a :: t) ((PyList.maskPositions u).map (· + 1)) = PyList.pick t (PyList.maskPositions u) := by
+        unfold PyList.pick
+        rw [List.filterMap_map]
+        rfl
+      unfold PyList.select at ih ⊢
+      rw [hshift]
+      unfold PyList.pick
+      rw [List.filterMap_append]
+      have := ih u hl'
+      unfold PyList.pick at this hpick
+      rw [hpick, this]
+      by_cases hb : (b != 0) = true
+      · have hb0 : b ≠ 0 := by simpa using hb
+        simp [hb, hb0]
+      · have hb0 : b = 0 := by simpa using hb
+        simp [hb0]
+
 /-- the mismatched-length masks and right-hand sides raise -/
 theorem mask_length_mismatch (h : Heap) (f mask : View) (hun : f.indices = none) (hl : f.length ≠ mask.length) :
     getsliceMask h f mask = .error .dimMismatch := by
@@ -611,6 +838,40 @@ theorem convert_refines {h : Heap} {v : View} (w : v.WF (shape h)) :
   unfold convert
   simp [w.readAll, Cfg.current]
 
+/-! ## Component arrays `.x .y .z .w` / `.r .g .b .a` / `.min .max`  (`Vec3Array_get` and its six copies)
+
+`compView true` is the intended behaviour (and the current code once the component getters keep `_indices`);
+`compView false` is the code as first examined: the mask of a masked reference is dropped.  Which one the current
+tree is, is decided on every run by replaying `witnessComponentLines` on the real module. -/
+
+/-- **clause 10 for component arrays**: the component array of a dense vector array OR of a masked reference reads
+    and writes exactly component `k` of the selected elements (it is a well-formed view with the same mask on the
+    same storage, so every get/set theorem above applies to it) -/
+theorem component_refines {h : Heap} {va : View} {w k : Nat} (hk : k < w) (W : va.WideWF (shape h) w) :
+    ∃ c, compView true va k = .ok c ∧ c.WF (shape h) ∧ c.buf = va.buf ∧ c.writable = va.writable ∧
+      c.indices = va.indices ∧ c.length = va.length ∧
+      c.toList h = (List.range va.length).map (fun i => cellAt h va.buf (va.cellPos i + k)) :=
+  compView_refines hk W
+
+/-- **clause 12 for component arrays** (either variant): the component array shares storage and writability with its
+    source, so adding it to the Python objects keeps a protected buffer protected -/
+theorem component_protected {km : Bool} {s : State} {b v k : Nat} {a c : View} (hp : Protected s b)
+    (ha : s.env[v]? = some a) (hc : compView km a k = .ok c) : Protected (s.push s.heap c).1 b := by
+  have hi := compView_inherits hc
+  exact push_protected hp (fun hcb => by rw [hi.2.1]; exact hp a (List.mem_of_getElem? ha) (hi.1 ▸ hcb))
+
+/-- **as first examined the mask is dropped**: `a[[0,1,0,1]].x` of the 4-element witness reads elements 1,2 (not 1,3)
+    and `.x[1] = 99` lands in `a[2]`; intended: reads 1,3 and writes `a[3]` -/
+theorem component_asWritten_drops_mask :
+    witnessComponent false = .ok ([1, 2], [0, 10, 20, 1, 11, 21, 99, 12, 22, 3, 13, 23]) ∧
+    witnessComponent true = .ok ([1, 3], [0, 10, 20, 1, 11, 21, 2, 12, 22, 99, 13, 23]) := by decide
+
+/-- as first examined the component array of an EMPTY masked reference reads `_indices[0]` of a zero-length
+    allocation -/
+theorem component_asWritten_empty_mask_reads_out_of_bounds (va : View) (k : Nat) (h : va.indices = some []) :
+    compView false va k = .error .oob ∧ ∃ c, compView true va k = .ok c := by
+  simp [compView, h]
+
 /-! ## Known deviation still present in the current code (recorded finding) -/
 
 /-- `m[mask2] = x` on a masked reference `m` ignores `mask2` altogether (every referenced element is set);
@@ -658,6 +919,57 @@ example : (alloc2D [] 3 2 [1, 2, 3, 4, 5, 6]).2.WF (shape (alloc2D [] 3 2 [1, 2,
   have : j < 2 := hj
   omega
 
+/-! ## FixedVArray against nested lists  (`Model/FixedVArray.lean`; tied to VIntArray / VFloatArray / VV2iArray / VV2fArray) -/
+section VArray
+open ImathVerif.FixedVArray
+
+/-- `va[i]`, ints of any sign: the row `nested[i]`; `IndexError` in exactly the same cases -/
+theorem varray_getitem_refines {h : VHeap} {v : VView} (w : v.WF (vshape h)) (i : Int) :
+    getRow h v i = (match PyList.getitem (v.toNested h) i with
+      | some r => .ok r
+      | none => .error .indexError) := getRow_refines w i
+
+/-- `va.size[i]` (the overload meant for an int key): `len(nested[i])` -/
+theorem varray_size_refines {h : VHeap} {v : VView} (w : v.WF (vshape h)) (i : Int) :
+    sizeGet h v i = (match PyList.getitem (v.toNested h) i with
+      | some r => .ok r.length
+      | none => .error .indexError) := sizeGet_refines w i
+
+/-- `va[start:stop:step]`, whenever accepted: a fresh variable array equal to `nested[start:stop:step]` -/
+theorem varray_getslice_refines {h : VHeap} {v : VView} (w : v.WF (vshape h)) {a b c : Option Int}
+    (hc : ∀ x, c = some x → -PY_SSIZE_T_MAX ≤ x) {h' : VHeap} {f : VView}
+    (hr : getsliceV h v (.slice a b c) = .ok (h', f)) :
+    PyList.getslice (v.toNested h) a b c = some (f.toNested h') ∧ f.WF (vshape h') ∧ f.writable = true ∧
+      f.indices = none ∧ f.buf = h.length ∧ (∃ rows, h' = h ++ [rows]) := getsliceV_refines w hc hr
+
+/-- every FORWARD slice is accepted by FixedVArray's own `extract_slice_indices` (which still tests `s < 0`) -/
+theorem varray_forward_slices_accepted {n : Nat} (hn : (n : Int) ≤ PY_SSIZE_T_MAX) {a b c : Option Int}
+    (hpos : 0 < c.getD 1) : ∃ s, extractV n (.slice a b c) = .ok s := extract_slice_forward_ok hn hpos
+
+/-- `va[mask]`: a reference (same allocation, same writability) to exactly the selected rows -/
+theorem varray_getmask_refines {h : VHeap} {v : VView} (w : v.WF (vshape h)) (hun : v.indices = none) (bits : List Int)
+    (hlen : v.length = bits.length) :
+    ∃ m, getmaskV v bits = .ok m ∧ m.toNested h = PyList.select (v.toNested h) bits ∧ m.WF (vshape h) ∧
+      m.buf = v.buf ∧ m.writable = v.writable := getmaskV_refines w hun bits hlen
+
+/-- every write (rows, elements through a row reference, sizes) through a read-only variable array raises and leaves
+    all rows as they were; masked references and handle copies inherit `_writable` (`varray_getmask_refines`) -/
+theorem varray_readonly_raises (h : VHeap) (v d : VView) (idx : PyIdx) (bits data sizes : List Int) (k : Nat)
+    (hw : v.writable = false) :
+    setRow h v idx data = (h, some .readOnly) ∧ setRowMask h v bits data = (h, some .readOnly) ∧
+    setVec h v idx d = (h, some .readOnly) ∧ setVecMask h v bits d = (h, some .readOnly) ∧
+    setSize h v idx k = (h, some .readOnly) ∧ setSizeMask h v bits k = (h, some .readOnly) ∧
+    setSizeVec h v idx sizes = (h, some .readOnly) ∧ setSizeVecMask h v bits sizes = (h, some .readOnly) ∧
+    (∀ i j x r, getRow h v i = .ok r → setElem h v i j x = .error .readOnly) :=
+  varray_readonly h v d idx bits data sizes k hw
+
+/-- non-vacuity: `VIntArray` with rows `[[1],[],[2,3]]` is well formed and reads back as that nested list -/
+example : (allocV [] [[1], [], [2, 3]]).2.WF (vshape (allocV [] [[1], [], [2, 3]]).1) ∧
+    (allocV [] [[1], [], [2, 3]]).2.toNested (allocV [] [[1], [], [2, 3]]).1 = [[1], [], [2, 3]] :=
+  allocV_WF [] _ (by decide)
+
+end VArray
+
 /-! ## StringTable / StringArray -/
 open ImathVerif.StringTable in
 /-- **bijection between indices and strings**, preserved by `intern` (any interning order) -/
@@ -698,6 +1010,22 @@ theorem string_array_create_repr (s : String) (n : Nat) :
   simp at hi
   simp [getitemString, hi, lookupIdx, findIdx]
 
+open ImathVerif.StringTable in
+/-- **`a[pos] = b` between two string arrays** (`setitem_string_vector`, and with `pos` = the mask positions
+    `setitem_string_vector_mask`): each string is looked up in `b`'s table and re-interned in `a`'s, so `a` ends up
+    representing `la` with `la[pos[i]] = lb[i]` — whatever the two tables' interning orders -/
+theorem string_vector_assign_repr {a b : ArrState} {la lb : List String} (ra : Repr a la) (rb : Repr b lb)
+    (pos : List Nat) (hsz : a.table.length + pos.length ≤ indexMax) (hpos : ∀ p ∈ pos, p < la.length)
+    (hlen : pos.length = lb.length) :
+    ∃ a', setVecString a b pos = some a' ∧ Repr a' (PyList.setZip la pos lb) := setVecString_repr ra rb pos hsz hpos hlen
+
+open ImathVerif.StringTable in
+/-- the theorem discriminates: with `a = ["x"]`, `b = ["y"]` (both strings have index 0 in their OWN table) the model
+    reads back "y", while the slip `(*this)[i] = data[i]` (copying `b`'s index into `a`) would read back "x" -/
+example :
+    ((setVecString ⟨[⟨0, "x"⟩], [0]⟩ ⟨[⟨0, "y"⟩], [0]⟩ [0]).bind (fun a' => getitemString a' 0)) = some "y" ∧
+    getitemString ⟨[⟨0, "x"⟩], ([0] : List Nat).set 0 0⟩ 0 = some "x" := by decide
+
 /-! ## Buffer protocol -/
 open ImathVerif.BufferProtocol
 
@@ -706,43 +1034,141 @@ theorem buffer_len_is_shape_times_itemsize (t : ElemTy) (length stride : Nat) :
     (getbuffer BufCfg.repaired t length stride).consistent := by
   simp [PyBuffer.consistent, getbuffer, numBytes, BufCfg.repaired]
 
-/-- **`...ArrayFromBuffer`** (current code): accepted sources have the array's own element format and size, and the new
-    array holds exactly the source bytes; the copy can never overrun the allocation -/
-theorem from_buffer_exact (t : ElemTy) (src : Src) (bytes : List Nat)
-    (h : fromBuffer BufCfg.repaired t src = .ok bytes) :
-    bytes = src.bytes ∧ src.format = [t.format] ∧ src.itemsize = t.atomicSize ∧
-      bytes.length = src.shape0 * t.sizeofT := by
+/-- **`...ArrayFromBuffer` copies exactly the source's items** — for BOTH acceptable forms of the copy (item by item
+    honouring the strides, or `memcpy` after refusing non-contiguous views): an accepted source has the array's
+    element kind and size, and the new array holds exactly the source's logical items (`bytes(memoryview(src))`),
+    whatever its strides; the number of bytes is that of the allocation.
+    `Src.Consistent` = the PEP-3118 invariants of any exporter (`len = Π shape × itemsize`, one stride per dimension). -/
+theorem from_buffer_exact (cfg : BufCfg) (hck : cfg.fromBufferChecks = true) (hcp : cfg.copy ≠ .memcpy)
+    (t : ElemTy) (src : Src) (hs : src.Consistent) (bytes : List Nat)
+    (h : fromBuffer cfg t src = .ok bytes) :
+    src.logicalBytes = some bytes ∧ fmtKind (fmtChar src.format) = fmtKind t.format ∧
+      src.itemsize = t.atomicSize ∧ bytes.length = src.shape0 * t.sizeofT := by
   unfold fromBuffer at h
-  simp only [BufCfg.repaired] at h
   by_cases hb : badPrefix src.format = true
   · simp [hb] at h
   · have hbf : badPrefix src.format = false := by simpa using hb
-    simp only [hbf, Bool.false_eq_true, if_false] at h
-    by_cases h1 : src.format = [t.format]
-    · by_cases h2 : src.itemsize = t.atomicSize
-      · by_cases h3 : src.bytes.length = src.shape0 * t.sizeofT
-        · simp [h1, h2, h3] at h
-          subst h
-          simp [h1, h2, h3]
-        · simp [h1, h2, h3] at h
-      · simp [h1, h2] at h
-    · simp [h1] at h
+    simp only [hbf, Bool.false_eq_true, if_false, hck, true_and] at h
+    split at h
+    · simp at h
+    · rename_i hchk
+      have hchk' : ¬ src.shape = [] ∧ src.itemsize = t.atomicSize ∧
+          fmtKind (fmtChar src.format) = fmtKind t.format ∧ src.len = src.shape0 * t.sizeofT := by
+        refine ⟨fun hh => hchk (Or.inl hh), ?_, ?_, ?_⟩
+        · exact Classical.byContradiction (fun hh => hchk (Or.inr (Or.inl hh)))
+        · exact Classical.byContradiction (fun hh => hchk (Or.inr (Or.inr (Or.inl hh))))
+        · exact Classical.byContradiction (fun hh => hchk (Or.inr (Or.inr (Or.inr hh))))
+      obtain ⟨_, hi, hk, hl⟩ := hchk'
+      split at h
+      · simp at h
+      · rename_i hnc
+        split at h
+        · simp at h
+        · split at h
+          · simp at h
+          · rename_i got hgot
+            simp only [Except.ok.injEq] at h
+            have hlog : src.logicalBytes = some got := by
+              cases hm : cfg.copy with
+              | memcpy => exact absurd hm hcp
+              | logical => simpa [hm] using hgot
+              | requireContiguous =>
+                have hcont : src.isCContiguous = true := by
+                  cases hcc : src.isCContiguous with
+                  | true => rfl
+                  | false => exact absurd ⟨hm, hcc⟩ hnc
+                have hflat : src.flatBytes = some got := by simpa [hm] using hgot
+                exact contiguous_flat_eq_logical hs hcont hflat
+            have hlen := logicalBytes_length hs hlog
+            have hpad : src.shape0 * t.sizeofT - got.length = 0 := by omega
+            rw [hpad] at h
+            simp only [List.replicate_zero, List.append_nil] at h
+            subst h
+            exact ⟨hlog, hk, hi, by omega⟩
 
-theorem from_buffer_never_overruns (t : ElemTy) (src : Src) :
-    fromBuffer BufCfg.repaired t src ≠ .error .oob := by
+/-- the two repairs as instances -/
+theorem from_buffer_exact_repaired (t : ElemTy) (src : Src) (hs : src.Consistent) (bytes : List Nat) :
+    (fromBuffer BufCfg.repaired t src = .ok bytes → src.logicalBytes = some bytes) ∧
+    (fromBuffer BufCfg.repairedStrict t src = .ok bytes → src.logicalBytes = some bytes) :=
+  ⟨fun h => (from_buffer_exact BufCfg.repaired rfl (by decide) t src hs bytes h).1,
+   fun h => (from_buffer_exact BufCfg.repairedStrict rfl (by decide) t src hs bytes h).1⟩
+
+/-- with the size checks in place the copy can never write past the new allocation, whatever the copy mode -/
+theorem from_buffer_never_overruns (cfg : BufCfg) (hck : cfg.fromBufferChecks = true) (t : ElemTy) (src : Src) :
+    fromBuffer cfg t src ≠ .error .oob := by
   unfold fromBuffer
-  simp only [BufCfg.repaired]
   by_cases hb : badPrefix src.format = true
   · simp [hb]
   · have hbf : badPrefix src.format = false := by simpa using hb
-    simp only [hbf, Bool.false_eq_true, if_false]
-    by_cases h1 : src.format = [t.format]
-    · by_cases h2 : src.itemsize = t.atomicSize
-      · by_cases h3 : src.bytes.length = src.shape0 * t.sizeofT
-        · simp [h1, h2, h3]
-        · simp [h1, h2, h3]
-      · simp [h1, h2]
-    · simp [h1]
+    simp only [hbf, Bool.false_eq_true, if_false, hck, true_and]
+    split
+    · simp
+    · rename_i hchk
+      have hl : src.len = src.shape0 * t.sizeofT :=
+        Classical.byContradiction (fun hh => hchk (Or.inr (Or.inr (Or.inr hh))))
+      split
+      · simp
+      · split
+        · omega
+        · split <;> simp
+
+/-- the item-by-item copy reads nothing but the source's items: it cannot leave the exporter's block when they lie in it -/
+theorem from_buffer_reads_inside (cfg : BufCfg) (hcp : cfg.copy = .logical) (t : ElemTy) (src : Src)
+    (hin : src.logicalBytes.isSome = true) : fromBuffer cfg t src ≠ .error .oobRead := by
+  obtain ⟨b, hb⟩ := Option.isSome_iff_exists.1 hin
+  unfold fromBuffer
+  simp only [hcp, if_true, hb]
+  split
+  · simp
+  · split
+    · simp
+    · split
+      · simp
+      · split <;> simp
+
+/-- a C-contiguous consistent view: the flat `memcpy` image is the logical item list (why the defect below is
+    invisible to contiguous sources such as `array.array`) -/
+theorem from_buffer_contiguous_memcpy_exact {s : Src} (hs : s.Consistent) (hc : s.isCContiguous = true)
+    {b : List Nat} (hf : s.flatBytes = some b) : s.logicalBytes = some b := contiguous_flat_eq_logical hs hc hf
+
+/-! ### `...ArrayFromBuffer` as it is now: strided sources are `memcpy`'d as if contiguous  (`BufCfg.checked`) -/
+
+/-- little-endian 32-bit image of small naturals -/
+def le32 (l : List Nat) : List Nat := l.flatMap (fun x => [x, 0, 0, 0])
+
+def intTy : ElemTy := ⟨4, 1, 1, 4, 'i'⟩
+
+/-- `memoryview(array('i', [1..6]))[::2]`: 3 items, stride 8 bytes -/
+def srcEveryOther : Src := ⟨['i'], 4, [3], [8], le32 [1, 2, 3, 4, 5, 6], 0, 12⟩
+/-- `memoryview(array('i', [1..6]))[::-1]`: 6 items, stride -4, `buf` at the LAST item -/
+def srcReversed : Src := ⟨['i'], 4, [6], [-4], le32 [1, 2, 3, 4, 5, 6], 20, 24⟩
+
+example : srcEveryOther.Consistent ∧ srcReversed.Consistent :=
+  ⟨⟨rfl, by decide, by decide⟩, ⟨rfl, by decide, by decide⟩⟩
+
+/-- **`IntArrayFromBuffer(memoryview(array('i',[1..6]))[::2])`**: the source's items are 1,3,5; the flat `memcpy` yields
+    1,2,3; the item-wise copy yields 1,3,5; the strict variant refuses the view -/
+theorem from_buffer_memcpy_wrong_elements :
+    srcEveryOther.logicalBytes = some (le32 [1, 3, 5]) ∧
+    fromBuffer BufCfg.checked intTy srcEveryOther = .ok (le32 [1, 2, 3]) ∧
+    fromBuffer BufCfg.repaired intTy srcEveryOther = .ok (le32 [1, 3, 5]) ∧
+    fromBuffer BufCfg.repairedStrict intTy srcEveryOther = .error .notContiguous := by decide
+
+/-- **`IntArrayFromBuffer(memoryview(array('i',[1..6]))[::-1])`**: `memcpy` of 24 bytes starting at the last item reads
+    20 bytes past the source's block; the item-wise copy yields 6,5,4,3,2,1 -/
+theorem from_buffer_memcpy_reversed_reads_out_of_bounds :
+    fromBuffer BufCfg.checked intTy srcReversed = .error .oobRead ∧
+    fromBuffer BufCfg.repaired intTy srcReversed = .ok (le32 [6, 5, 4, 3, 2, 1]) ∧
+    fromBuffer BufCfg.repairedStrict intTy srcReversed = .error .notContiguous := by decide
+
+/-- hence the exact-copy statement is FALSE for the flat `memcpy` (the code as it is after 529722b) -/
+theorem from_buffer_exact_false_for_memcpy :
+    ¬ (∀ (t : ElemTy) (src : Src) (bytes : List Nat), src.Consistent →
+        fromBuffer BufCfg.checked t src = .ok bytes → src.logicalBytes = some bytes) := by
+  intro h
+  have := h intTy srcEveryOther (le32 [1, 2, 3]) ⟨rfl, by decide, by decide⟩ (by decide)
+  revert this
+  decide
 
 /-! # Former defects — documentation and regression witnesses
 
@@ -855,15 +1281,13 @@ theorem buffer_len_asWritten_witness :
     (getbuffer BufCfg.asWritten v3f 5 1).len = 20 ∧ (getbuffer BufCfg.asWritten v3f 5 1).shape = [5, 3] ∧
     (getbuffer BufCfg.repaired v3f 5 1).len = 60 := by decide
 
-def intTy : ElemTy := ⟨4, 1, 1, 4, 'i'⟩
-
 /-- as written only byte-order prefixes are rejected: three doubles are accepted for an `int` array and
     24 bytes are copied into a 12-byte allocation (heap overflow); three signed bytes are accepted too -/
 theorem from_buffer_asWritten_unchecked :
-    fromBuffer BufCfg.asWritten intTy ⟨['d'], 8, 3, List.replicate 24 1⟩ = .error .oob ∧
-    (∃ bytes, fromBuffer BufCfg.asWritten intTy ⟨['b'], 1, 3, List.replicate 3 1⟩ = .ok bytes) ∧
-    fromBuffer BufCfg.repaired intTy ⟨['d'], 8, 3, List.replicate 24 1⟩ = .error .mismatch ∧
-    fromBuffer BufCfg.repaired intTy ⟨['b'], 1, 3, List.replicate 3 1⟩ = .error .mismatch := by
+    fromBuffer BufCfg.asWritten intTy (Src.dense ['d'] 8 3 (List.replicate 24 1)) = .error .oob ∧
+    (∃ bytes, fromBuffer BufCfg.asWritten intTy (Src.dense ['b'] 1 3 (List.replicate 3 1)) = .ok bytes) ∧
+    fromBuffer BufCfg.repaired intTy (Src.dense ['d'] 8 3 (List.replicate 24 1)) = .error .mismatch ∧
+    fromBuffer BufCfg.repaired intTy (Src.dense ['b'] 1 3 (List.replicate 3 1)) = .error .mismatch := by
   refine ⟨by decide, ⟨List.replicate 3 1 ++ List.replicate 9 0, by decide⟩, by decide, by decide⟩
 
 end ImathVerif.C19
